@@ -1,6 +1,7 @@
 """./check <Cid> [--tier quick|thorough] | replay <file> | selftest   (DESIGN 3.8, 4)"""
 import argparse
 import fnmatch
+import re
 import hashlib
 import json
 import os
@@ -13,6 +14,31 @@ ROOT = os.path.dirname(os.path.dirname(os.path.abspath(__file__)))
 sys.path.insert(0, ROOT)
 VENV_PY = '/venv/bin/python'
 OUTROOT = os.environ.get('VERIF_OUTDIR', ROOT)      # evidence/ and out/ live here (scratch dir for seed tests)
+
+
+def native_start(args):
+    env = dict(os.environ)
+    repo = os.environ.get('VERIF_REPO', '/repo')
+    env['PYTHONPATH'] = repo + os.pathsep + ROOT
+    env['PYTHONHASHSEED'] = '0'
+    return subprocess.Popen([VENV_PY, '-m', 'replayers.run'] + args, cwd=ROOT, stdout=subprocess.PIPE,
+                            stderr=subprocess.PIPE, text=True, env=env)
+
+
+def native_join(proc, timeout=900):
+    try:
+        out, err = proc.communicate(timeout=timeout)
+    except subprocess.TimeoutExpired:
+        proc.kill()
+        out, err = proc.communicate()
+    doc = None
+    for line in reversed(out.strip().splitlines()):
+        try:
+            doc = json.loads(line)
+            break
+        except Exception:
+            continue
+    return proc.returncode, doc, err[-2000:]
 
 
 def native(args, timeout=600):
@@ -46,7 +72,7 @@ def match_known(kf, prop, obname):
     for f in kf:
         if f.get('status') == 'open' and f['property'] == prop:
             for pat in f.get('obligations', []):
-                if fnmatch.fnmatch(obname.split('#p')[0], pat):
+                if re.fullmatch(pat, obname.split('#p')[0]):
                     return f
     return None
 
@@ -59,11 +85,17 @@ def run_check(cid, tier, seed):
         print(f'CHECKER-ERROR property {cid} has no check')
         return 3
     P = PROPS[cid]
-    timeout_ms = 20000 if tier == 'quick' else 120000
+    timeout_ms = 30000 if tier == 'quick' else 240000
     kf_path = os.path.join(ROOT, 'known_findings.json')
     known = json.load(open(kf_path))['findings'] if os.path.exists(kf_path) else []
     reports = []
     errors = []
+    # native layer (run-time monitoring of the same contracts + property oracle) runs concurrently with the prover
+    budget = P.get('native_budget', {}).get(tier, 1000 if tier == 'quick' else 30000)
+    nat_proc = None
+    if P.get('native', True):
+        nat_proc = native_start(['search', '--prop', cid, '--seed', str(seed), '--budget', str(budget),
+                                 '--time-limit', '40' if tier == 'quick' else '900'])
     # ---------------------------------------------------------------- generate obligations from the real source
     for key in P['functions']:
         c = reg.contracts.get(key)
@@ -98,9 +130,12 @@ def run_check(cid, tier, seed):
                 reports.append(rep)
     obs = []
     for rep in reports:
+        c = reg.contracts.get(rep.key)
         for ob in rep.obs:
             if cid in ob.props:
                 obs.append(ob)
+                if c is not None and c.expect_refuted:
+                    ob.meta['expect_refuted'] = True
     # ---------------------------------------------------------------- scans
     scan_results = []
     for sc in P.get('scans', []):
@@ -109,7 +144,10 @@ def run_check(cid, tier, seed):
         scan_results.append(res)
     # ---------------------------------------------------------------- discharge
     t0 = time.time()
-    solve.discharge(obs, timeout_ms=timeout_ms, seed=seed, cross=(tier == 'thorough'))
+    solve.discharge([o for o in obs if not o.meta.get('expect_refuted')], timeout_ms=timeout_ms, seed=seed,
+                    cross=(tier == 'thorough'))
+    # case-split contracts pinned as open findings: short budget, z3 only is enough (they are expected to fail)
+    solve.discharge([o for o in obs if o.meta.get('expect_refuted')], timeout_ms=3000, seed=seed, fallback=False)
     solver_wall = time.time() - t0
     # ---------------------------------------------------------------- smoke (vacuity): planted False must not verify
     smoke = dict(exits=0, vacuous=[], functions=0)
@@ -150,12 +188,10 @@ def run_check(cid, tier, seed):
         else:
             new_failed.append(ob)
     # native: run-time monitoring of the same contracts + property oracle on small-scope histories
-    budget = P.get('native_budget', {}).get(tier, 2000 if tier == 'quick' else 40000)
     nat_rc, nat, nat_err = (0, None, '')
-    if P.get('native', True):
+    if nat_proc is not None:
         try:
-            nat_rc, nat, nat_err = native(['search', '--prop', cid, '--seed', str(seed), '--budget', str(budget),
-                                           '--time-limit', '60' if tier == 'quick' else '600'])
+            nat_rc, nat, nat_err = native_join(nat_proc)
         except Exception as ex:
             nat_err = repr(ex)
         if nat is None:
@@ -274,11 +310,12 @@ def run_check(cid, tier, seed):
     scan_obs = sum(s.get('checked', 0) for s in scan_results)
     scan_ok = sum(s.get('checked', 0) - len(s.get('violations', [])) for s in scan_results)
     n_known = sum(len(v) for v in known_hits.values())
-    level = 'proof' if (discharged + n_known == len(obs) and not errors and exit_code == 0) else 'other'
+    n_obs = len(obs) - n_known          # obligations pinned as open findings are reported separately, not counted
+    level = 'proof' if (discharged == n_obs and not errors and exit_code == 0) else 'other'
     ev = dict(
         property_id=cid, tier=tier, seed=seed, level=level,
         coverage=dict(
-            obligations=len(obs) + scan_obs, discharged=discharged + scan_ok,
+            obligations=n_obs + scan_obs, discharged=discharged + scan_ok,
             checker_cmd=f'./check {cid} --tier {tier}',
             trusted_base=P.get('trusted_base', []) + [
                 'pyvc engine semantics of the Python subset (DESIGN 3.3-3.4, 7.1)',
@@ -311,7 +348,7 @@ def run_check(cid, tier, seed):
         print(l)
     for l in lines:
         print(l)
-    print(f'{cid}: obligations={len(obs) + scan_obs} discharged={discharged + scan_ok} known-finding={n_known} '
+    print(f'{cid}: obligations={n_obs + scan_obs} discharged={discharged + scan_ok} known-finding={n_known} '
           f'functions={len(reports)} native-histories={(nat or {}).get("histories")} exit={exit_code} '
           f'wall={time.time() - t_start:.1f}s')
     return exit_code
